@@ -228,7 +228,7 @@ func execC08(p *drv.Plan) *Out {
 	}
 	lastWrite := false
 	hooks := drv.Hooks{
-		Prop: "C08",
+		Prop:   "C08",
 		Before: func(w *drv.World, s drv.Step) {},
 		After: func(w *drv.World, s drv.Step) *drv.Violation {
 			isW := s.Op == drv.OpSet || s.Op == drv.OpRemove
